@@ -14,6 +14,10 @@ Verdict(r) ==
          ELSE IF r.starts = 1 /\ r.alarm \in (r.L - 2)..r.L THEN "ok" ELSE "bad"
     [] r.e = "Kill" ->
          IF KillOk(r.L, r.W, r.wallms, r.jsig, r.jexit) THEN "ok" ELSE "bad"
+    [] r.e = "Req" ->
+         (* one request with several VTODOs run by one echsx process: the executor survives and every task *)
+         (* meets its own contract, whatever happened to the tasks before it                                *)
+         IF r.rc = 0 /\ \A k \in 1..Len(r.tasks) : ObservedOk(r.tasks[k], r.res[k]) THEN "ok" ELSE "bad"
     [] OTHER -> "bad"
 N == Len(Tr)
 BadSet == {k \in 1..N : Verdict(Tr[k]) = "bad"}
